@@ -115,14 +115,36 @@ func (d *Duration) UnmarshalText(text []byte) error {
 			out += time.Duration(m) * time.Minute
 		}
 		if match[3] != "" {
-			s, err := strconv.ParseFloat(match[3], 64)
+			s, err := parseDurationSeconds(match[3])
 			if err != nil {
 				return fmt.Errorf("invalid duration seconds (%s): %s", text, err)
 			}
-			out += time.Duration(s * float64(time.Second))
+			out += s
 		}
 	}
 
 	*d = Duration(sign * out)
 	return nil
+}
+
+// parseDurationSeconds parses a decimal number of seconds exactly (fraction
+// digits beyond nanosecond resolution are truncated).
+func parseDurationSeconds(text string) (time.Duration, error) {
+	whole, frac, _ := strings.Cut(text, ".")
+	s, err := strconv.ParseInt(whole, 10, 64)
+	if err != nil {
+		return 0, err
+	}
+	out := time.Duration(s) * time.Second
+	if frac != "" {
+		if len(frac) > 9 {
+			frac = frac[:9]
+		}
+		ns, err := strconv.ParseInt(frac+strings.Repeat("0", 9-len(frac)), 10, 64)
+		if err != nil {
+			return 0, err
+		}
+		out += time.Duration(ns)
+	}
+	return out, nil
 }
